@@ -11,24 +11,26 @@ From Gnmi Require Import Base.Prelude Client.ClientModel Client.ClientCheck
      Client.ClientProofs Client.ClientProofs2 Client.ClientProofs3 Client.ClientProofs4 Client.ClientProofs5.
 
 (** The acceptance check is sound: an accepted recording is a trace of the model
-    of the code as it is now ([step_now] = [step] + the DEFECT C18_1 transition;
-    the theorems below are about [step], i.e. about everything outside
-    known-finding class 1, and about all of a ReconnectClient's behaviour). *)
+    ([step_now] = [step] since DEFECT C18_1 was fixed in /repo 4c160ca). *)
 Theorem C18_accepts_sound : forall rc l tr ss,
   model_accepts rc l tr = inr ss -> exists s, run (step_now rc (sc_of l)) init tr s.
 Proof. exact model_accepts_sound. Qed.
 Print Assumptions C18_accepts_sound.
 
-Theorem C18_step_now_reconnect : forall sc s, step_now true sc s = step true sc s.
-Proof. exact step_now_rc. Qed.
-Print Assumptions C18_step_now_reconnect.
+Theorem C18_step_now_is_step : forall rc sc s, step_now rc sc s = step rc sc s.
+Proof. exact step_now_eq. Qed.
+Print Assumptions C18_step_now_is_step.
 
-(** Known finding 1 (DEFECT C18_1): on the code as it is now at_most_one_after_close
-    fails for a bare client when Close arrives while a second Subscribe call is
-    connecting (witness corpus/C18/kf1_close_during_second_connect.json). *)
+(** Regression witness of former known finding 1 (DEFECT C18_1, fixed): the
+    recording made before the patch -- bare client, Close while a second
+    Subscribe was connecting returned nil, three whole messages delivered
+    afterwards -- fails the tag-5 monitor and is not a trace of the model; the
+    recording of the patched code on the same scenario is accepted and passes
+    K_P (witness corpus/C18/fixed_close_during_second_connect.json). *)
 Theorem C18_at_most_one_after_close_refuted :
-  exists s, run (step_now false (sc_of kf1_l)) init kf1_tr s /\
-            k_after false kf1_tr = Some 19 /\ known_class false kf1_l kf1_tr = 1%N.
+  k_after false kf1_tr = Some 19 /\ stale_close 0 0 kf1_tr = true /\
+  model_accepts false kf1_l kf1_tr = inl 15 /\
+  check_case (false, true, kf1_l, kf1_tr_fixed) = [].
 Proof. exact at_most_one_after_close_refuted. Qed.
 Print Assumptions C18_at_most_one_after_close_refuted.
 
@@ -58,21 +60,24 @@ Print Assumptions C18_close_subscribe_terminate.
 (** closed_is_sticky: once some Close call on a ReconnectClient has returned,
     that stays so and [p.closed] stays set whatever is called afterwards, no
     subscriber state that hands something to the application is reachable any
-    more, and every later Subscribe call is at most 7 subscriber steps long
+    more, and every later Subscribe call is at most 8 subscriber steps long
     (no backoff sleep, no handler invocation) -- for every script, schedule
     and sequence of further calls. *)
 Theorem C18_closed_is_sticky : forall sc s,
   reach true sc s -> c_done s = true ->
-  r_closed s = true /\ emits (s_pc s) = false /\ mq s <= 8 /\
+  r_closed s = true /\ emits (s_pc s) = false /\ mq s <= 9 /\
   (forall l s1, In (l, s1) (step true sc s) -> c_done s1 = true /\ r_closed s1 = true) /\
   (forall l s1, In (l, s1) (sstep true sc s) -> is_call l = false ->
      mq s1 < mq s /\ (forall e, l = Some e -> is_handler e = false)).
 Proof. exact closed_is_sticky. Qed.
 Print Assumptions C18_closed_is_sticky.
 
-(** A bare Base/Cache client, for any history of earlier (sequential) calls:
-    between API calls executions are bounded, and after a Close that succeeded
-    for the Subscribe call in progress nothing blocks before both returned. *)
+(** A bare Base/Cache client, for any history of earlier calls (Close at any
+    moment, a new Subscribe only when no Close is in progress): between API calls
+    executions are bounded, and after a Close that counts for the Subscribe call
+    in progress (made after it re-opened the client, transport found installed --
+    including the transport of an EARLIER call while this one still connects)
+    nothing blocks before both returned. *)
 Theorem C18_close_subscribe_terminate_base : forall sc s,
   reach false sc s ->
   forall n s', exec (nc_step false sc) s n s' ->
